@@ -508,6 +508,9 @@ def r9_types_stay_registered(ctx):
     the types it inserted itself (do/undo pairing of the one table writer, shared with C09.R2)."""
     from . import C09 as _C09
     _C09.r2_pairing(ctx)
+    # to() converts in place: a unit quantity handed out twice from a memo (module- or class-level) makes the second
+    # user convert an already converted object - 25 Cel -> K gives 6853.75 (shared with C09.R6)
+    _C09.r6_no_derived_state(ctx)
 
 
 RULES = [
